@@ -430,6 +430,17 @@ def floors(merged, tier):
             out.append(f"fewer than 5 accepted operations on market {mk}")
         if mk != "broker" and rej.get(mk, 0) < 5:
             out.append(f"fewer than 5 rejected operations on market {mk}")
+    # every operation the unchanged tree accepts by the dozen must have been accepted at all: an operation that is now
+    # always refused would leave its clauses (conservation, swap fee, payout <= holding) without a single observation
+    k = 1 if tier == "quick" else 10
+    for op in ("aave/borrow", "aave/change_collateral", "aave/repay", "aave/supply", "aave/withdraw", "broker/subtract_from_balance",
+               "broker/swap_by_from", "broker/swap_by_to", "deribit/buy", "deribit/deposit", "deribit/withdraw", "gmx/buy_glp",
+               "gmx/sell_glp", "gmx2/deposit", "gmx2/withdraw", "squeeth/burn_and_withdraw", "squeeth/buy_squeeth", "squeeth/deposit",
+               "squeeth/open_deposit_mint", "squeeth/sell_squeeth", "uniswap/add_liquidity", "uniswap/add_liquidity_by_tick",
+               "uniswap/add_liquidity_by_value", "uniswap/buy", "uniswap/collect_fee", "uniswap/even_rebalance",
+               "uniswap/remove_all_liquidity", "uniswap/remove_liquidity", "uniswap/sell", "uniswap/swap"):
+        if merged["classes"].get(f"accepted/{op}", 0) < 4 * k:
+            out.append(f"operation {op} accepted only {merged['classes'].get(f'accepted/{op}', 0)} times (< {4 * k})")
     if merged["reach"].get("suite-tests-passed", 0) < 100:
         out.append(f"the repository's test suite under monitors passed only {merged['reach'].get('suite-tests-passed', 0)} tests (expected about 154)")
     if merged["reach"].get("swap-fee-checked", 0) < 5:
